@@ -384,6 +384,7 @@ func checkCmd(id, tier string, seed uint64) int {
 	known := loadKnown()
 	var matched []string
 	newViolations := 0
+	notReproduced := 0
 	for _, tag := range tags {
 		v := byTag[tag]
 		if kf := known.match(id, tag); kf != nil {
@@ -419,7 +420,11 @@ func checkCmd(id, tier string, seed uint64) int {
 			_ = os.WriteFile(path, raw, 0o644)
 			rr, err = replayOnce(bin, path, tmp)
 			if err != nil || !rr.Reproduced {
-				infra("violation %s did not reproduce from %s in a fresh process: simulator determinism bug, no verdict", tag, path)
+				// not reported as a violation: what does not replay is not believed
+				fmt.Printf("NOT-REPRODUCED property=%s tag=%s (seen %d times; its scenario did not show it again in a fresh process)\n", id, tag, v.Count)
+				_ = os.Remove(path)
+				notReproduced++
+				continue
 			}
 		}
 		newViolations++
@@ -432,6 +437,11 @@ func checkCmd(id, tier string, seed uint64) int {
 		id, tier, total.Runs, len(distinct), float64(total.SimNs)/1e9, newViolations, len(matched), wall)
 	if newViolations > 0 {
 		return 1
+	}
+	if notReproduced > 0 {
+		// something was seen that cannot be replayed and nothing that can: the simulator (or an
+		// uncontrolled source of nondeterminism in the tree) is the suspect, no verdict
+		infra("%d violation(s) seen by the workers did not reproduce from their replay files, and none did: no verdict", notReproduced)
 	}
 	return 0
 }
